@@ -45,7 +45,7 @@ def run(pid, tier, seed, replay):
     # (a) exhaustive exploration of the models: the repaired shape satisfies MemEqualsStore; the split shape yields the schedules
     sched_file = os.path.join(wd, "schedules.ndjson")
     with open(sched_file, "w") as sf:
-        scen = range(1, 7) if tier == "thorough" else (1, 3, 4, 6)
+        scen = range(1, 9) if tier == "thorough" else (1, 3, 4, 6, 7, 8)
         for sc in scen:
             for shape in ("locked", "split"):
                 d = vlib.fresh_dir(pid, "mc_%s_%d" % (shape, sc))
